@@ -97,6 +97,17 @@ Definition kind_belongs (r : rule) (m : msg) : bool :=
   | _, _ => false
   end.
 
-(** every rule the reference validator finds violated is answered by a diagnostic of a kind that belongs to it *)
+(** The property read on the implementation's output.
+    [violated] = the implemented rules the reference validator finds violated in the document.
+      - none violated: nothing is demanded here (false alarms are C04's subject);
+      - exactly one: the implementation reports a diagnostic of a kind belonging to that rule;
+      - several: the implementation reports at least one diagnostic (one fault may legitimately hide
+        another, e.g. nothing below an unknown field is typed). *)
+Definition violated (S : tsdoc) (D : opdoc) : list rule := filter (fun r => negb (rule_ok S D r)) all_rules.
+
 Definition holds (c : case) : bool :=
-  forallb (fun r => rule_ok (c_schema c) (c_doc c) r || existsb (fun e => kind_belongs r (e_msg e)) (c_out c)) all_rules.
+  match violated (c_schema c) (c_doc c) with
+  | [] => true
+  | [r] => existsb (fun e => kind_belongs r (e_msg e)) (c_out c)
+  | _ => match c_out c with [] => false | _ => true end
+  end.
